@@ -106,8 +106,23 @@ def gen_case(rng, tier):
         rng.shuffle(perm)
         reps = {"X": "u8", "Y": "u8", "Z": "u8"}
         diag = [[float(rng.randint(0, 255))] * 2]
+    shared = None
+    if X and Y and rng.random() < 0.15 and "X" not in reps and "Y" not in reps:
+        # X and Y are views into one buffer of the caller (columns of a wide table, interleaved rows, blocks,
+        # overlapping windows): equal lengths where the layout needs them
+        shared = rng.choice(dgmgen.SHARED)
+        if shared in ("cols4", "interleave", "window"):
+            n_ = min(len(X), len(Y))
+            X, Y = X[:n_], Y[:n_]
+            if shared == "window" and n_ >= 2:
+                k_ = rng.randint(1, n_ - 1)
+                Y = X[k_:] + Y[:k_]
+            perm = list(range(len(X)))
+            rng.shuffle(perm)
+    narrow_first = rng.choice(("f16", "f32")) if rng.random() < 0.15 else None
     return {
-        "inputs": {"X": X, "Y": Y, "Z": Z, "perm": perm, "diag": diag, "reps": reps,
+        "inputs": {"X": X, "Y": Y, "Z": Z, "perm": perm, "diag": diag, "reps": reps, "shared_xy": shared,
+                   "narrow_first": narrow_first,
                    "shift": rng.choice((0.5, -1.0, 2.0, 0.3, -0.7, 3.25, 10.0, 100.0, 1024.0)) * scale,
                    "factor": rng.choice((2.0, 0.5, 4.0, 3.0, 0.1, 7.5, 1e3))},
         "config": {"set_order": "sim", "mode": rng.choice(("uniform", "uniform", "sparse", "reverse")),
@@ -187,6 +202,27 @@ def run_case(case, sched):
     rp = inp.get("reps") or {}
     ev = Ev(sched, cfg, {id(D_): rp[nm] for nm, D_ in (("X", X), ("Y", Y), ("Z", Z)) if nm in rp})
     simset.CTX.iters = simset.CTX.permuted = 0
+    # another caller in the same process used single / half precision diagrams first (what ripser hands out)
+    nf = inp.get("narrow_first")
+    if nf is not None:
+        if nf not in ("f16", "f32"):
+            raise InvalidCase("narrow_first")
+        dt_ = np.float16 if nf == "f16" else np.float32
+        P_ = np.array([[0.0, 1.0], [0.5, 2.0]], dtype=dt_)
+        Q_ = np.array([[0.25, 1.5]], dtype=dt_)
+        mc.call_wasserstein(P_, Q_, False, "ignore")
+        mc.call_bottleneck(sched, P_, Q_, False, "insertion", "ignore")
+    sh = inp.get("shared_xy")
+    shared_used = 0
+    if sh is not None:
+        if sh not in dgmgen.SHARED:
+            raise InvalidCase("shared_xy")
+        if all(math.isfinite(p[1]) for p in X + Y) or True:
+            vw = dgmgen.shared_views(X, Y, sh)
+            if vw is not None and id(X) not in ev.reps and id(Y) not in ev.reps and X is not Y:
+                ev.arrays[id(X)] = (X, vw[0])
+                ev.arrays[id(Y)] = (Y, vw[1])
+                shared_used = 1
     nX, nY, nZ = len(X), len(Y), len(Z)
     sc = _scale(X, Y, Z)
     bt = 1e-12 * sc + 1e-300                               # bottleneck slack (floor: subnormal inputs)
@@ -294,12 +330,19 @@ def run_case(case, sched):
         "probes": {"size_ge_60": int(max(nX, nY, nZ) >= 60 or nX + nY >= 60), "size_ge_200": int(nX + nY >= 200),
                    "an_empty_diagram": int(nonempty < 3), "law_instances": done,
                    "long_chain_case": int(bool(cfg.get("chain"))),
+                   "x_y_views_of_one_buffer": shared_used, "narrow_float_call_first": int(nf is not None),
                    "diagrams_with_infinite_deaths": int(any(not math.isfinite(p[1]) for d_ in (X, Y, Z) for p in d_))},
         "faults": {"set_iterations_ordered": simset.CTX.iters, "non_insertion_choices": simset.CTX.permuted},
     }
 
 
 def shrink_candidates(case):
+    import copy as _c
+    for key_ in ("shared_xy", "narrow_first"):
+        if case["inputs"].get(key_) is not None:
+            c_ = _c.deepcopy(case)
+            c_["inputs"][key_] = None
+            yield c_
     from sim import shrink as shr
     laws = case["config"].get("laws") or []
     for idx in shr.list_deletions(laws, min_len=1):
